@@ -36,6 +36,7 @@ var engCfgs = map[string]EngCfg{
 	"bigN":  {"bigN", 32 << 20, 2, config.SyncNone, 0},
 	"bigB":  {"bigB", 32 << 20, 4, config.SyncBatch, 0},
 	"norw":  {"norw", 32 << 20, 4, config.SyncImmediate, 1}, // a reopening never continues the newest log file
+	"mid":   {"mid", 600, 4, config.SyncImmediate, 0},      // a table holds 20-30 small entries; a log of 50 entries spans several
 }
 
 // EngOp is one step of an engine program.
